@@ -101,6 +101,25 @@ var fixedSizeTypes = map[string]uint8{
 	typeDate:    8,
 }
 
+const (
+	// messages and unions are skipped by the length on the wire, not by the size of
+	// what was understood: the sender may know fields or branches we do not.
+	fmtAddWireLenToAt     = "at += %HDR + int(iohelp.ReadUint32Bytes(buf[at:]))\n"
+	fmtAddWireLenToAtSafe = "{\n\tln := %HDR + int(iohelp.ReadUint32Bytes(buf[at:]))\n\tif len(buf[at:]) < ln {\n\t\treturn io.ErrUnexpectedEOF\n\t}\n\tat += ln\n}\n"
+
+	// a message is a 4 byte length followed by that many bytes
+	messageHeaderLen = "4"
+	// a union is a 4 byte length and a discriminator byte followed by that many bytes
+	unionHeaderLen = "5"
+)
+
+func wireLenToAt(headerLen string, safe bool) string {
+	if safe {
+		return strings.Replace(fmtAddWireLenToAtSafe, "%HDR", headerLen, -1)
+	}
+	return strings.Replace(fmtAddWireLenToAt, "%HDR", headerLen, -1)
+}
+
 func fixedTitleString(typ string) string {
 	if typ == typeGUID {
 		return "GUID"
@@ -338,8 +357,8 @@ func (f File) typeByteReaders(gs GenerateSettings) map[string]string {
 		out[st.Name+hintSafeKey] = makeFormat(st.Namespace, gs) + fmtErrReturn + "\n" + fmtAddSizeToAt
 	}
 	for _, msg := range f.Messages {
-		out[msg.Name] = mustMakeFormat(msg.Namespace, gs) + fmtAddSizeToAt
-		out[msg.Name+hintSafeKey] = makeFormat(msg.Namespace, gs) + fmtErrReturn + "\n" + fmtAddSizeToAt
+		out[msg.Name] = mustMakeFormat(msg.Namespace, gs) + wireLenToAt(messageHeaderLen, false)
+		out[msg.Name+hintSafeKey] = makeFormat(msg.Namespace, gs) + fmtErrReturn + "\n" + wireLenToAt(messageHeaderLen, true)
 	}
 	for _, union := range f.Unions {
 		uout := union.typeByteReaders(gs)
@@ -352,8 +371,8 @@ func (f File) typeByteReaders(gs GenerateSettings) map[string]string {
 
 func (u Union) typeByteReaders(settings GenerateSettings) map[string]string {
 	out := map[string]string{}
-	out[u.Name] = mustMakeFormat(u.Namespace, settings) + fmtAddSizeToAt
-	out[u.Name+hintSafeKey] = makeFormat(u.Namespace, settings) + fmtErrReturn + "\n" + fmtAddSizeToAt
+	out[u.Name] = mustMakeFormat(u.Namespace, settings) + wireLenToAt(unionHeaderLen, false)
+	out[u.Name+hintSafeKey] = makeFormat(u.Namespace, settings) + fmtErrReturn + "\n" + wireLenToAt(unionHeaderLen, true)
 	for _, ufd := range u.Fields {
 		if ufd.Struct != nil {
 			st := ufd.Struct
@@ -362,8 +381,8 @@ func (u Union) typeByteReaders(settings GenerateSettings) map[string]string {
 		}
 		if ufd.Message != nil {
 			msg := ufd.Message
-			out[msg.Name] = mustMakeFormat(msg.Namespace, settings) + fmtAddSizeToAt
-			out[msg.Name+hintSafeKey] = makeFormat(msg.Namespace, settings) + fmtErrReturn + "\n" + fmtAddSizeToAt
+			out[msg.Name] = mustMakeFormat(msg.Namespace, settings) + wireLenToAt(messageHeaderLen, false)
+			out[msg.Name+hintSafeKey] = makeFormat(msg.Namespace, settings) + fmtErrReturn + "\n" + wireLenToAt(messageHeaderLen, true)
 		}
 	}
 	return out
